@@ -581,7 +581,7 @@ impl<T: RcObject> Rc<T> {
         if let Some(cnt) = unsafe { self.ptr.as_raw().as_ref() } {
             cnt.increment_weak(N as u32);
         }
-        array::from_fn(|_| Weak::null())
+        array::from_fn(|_| Weak::from_raw(self.ptr))
     }
 
     /// Returns the tag stored within the pointer.
